@@ -10,7 +10,7 @@ use crate::model::mv::num;
 use proptest::prelude::*;
 use serde::{Deserialize, Serialize};
 
-pub const RULE: &str = "(a) call-site independence: definitions binding k and m (numbers, lists, closures), a function f all of whose free names are bound at its definition (plain, optional parameter, curried, defined inside a do-block, capturing another closure, parameters that reuse captured names, a parameter named like the function itself or `inputs`, record shorthand), and a call f(args); the call is evaluated right after the definition and again inside every context of a grammar: IIFE whose parameters are named k / m / f's helpers, do-block shadowing k and m, callbacks of via / map / reduce / where / filter / sort_by whose parameters shadow, two- and three-deep call chains reusing the names, after failed redefinition attempts of k and m, with and without `inputs` carrying k and m. (b) arity: every parameter list with r required, o optional (r+o <= 4) and an optional rest parameter x argument counts 0..n+3, direct and through spread, against a positional binding model. Non-trivial = f captures at least one name and the context rebinds that name to a different value; distinct by (program, context).";
+pub const RULE: &str = "(a) call-site independence: definitions binding k and m (numbers, lists, closures), a function f all of whose free names are bound at its definition (plain, optional parameter, curried, defined inside a do-block, capturing another closure, parameters that reuse captured names, a parameter named like the function itself or `inputs`, record shorthand, a do-block in the middle of the body that rebinds a captured name which is read after it, functions re-entered while on the stack - directly, through a capture-free helper or a map callback - with frames in between that bind a captured name; the designed forms also carry the value the call must have), and a call f(args); the call is evaluated right after the definition and again inside every context of a grammar: IIFE whose parameters are named k / m / f's helpers, do-block shadowing k and m, callbacks of via / map / reduce / where / filter / sort_by whose parameters shadow, two- and three-deep call chains reusing the names, after failed redefinition attempts of k and m, with and without `inputs` carrying k and m. (b) arity: every parameter list with r required, o optional (r+o <= 4) and an optional rest parameter x argument counts 0..n+3, direct and through spread, against a positional binding model. Non-trivial = f captures at least one name and the context rebinds that name to a different value; distinct by (program, context).";
 pub const ASSUMPTIONS: &[&str] = &[
     "results are compared as values; failures are compared by status",
     "contexts come from a fixed grammar of context kinds",
@@ -26,6 +26,9 @@ pub enum Case {
         junk1: MV,
         junk2: MV,
         captures: bool,
+        /// for designed forms: an expression over k / m whose top-level value the call must have
+        #[serde(default)]
+        expect: Option<String>,
     },
     Arity {
         r: u8,
@@ -89,7 +92,7 @@ impl Check for Closures {
     }
     fn run(&self, c: &Case, ctx: &mut Ctx) -> Outcome {
         match c {
-            Case::Site { defs, call, junk1, junk2, captures } => {
+            Case::Site { defs, call, junk1, junk2, captures, expect } => {
                 let build = |with_inputs: bool, redefine: bool| -> Result<Sess, String> {
                     let sess = Sess::new();
                     if with_inputs {
@@ -115,6 +118,22 @@ impl Check for Closures {
                 };
                 let reference = sess.obs(call);
                 ctx.label(if reference.is_ok() { "reference-ok" } else { "reference-err" });
+                if let Some(exp) = expect {
+                    // designed forms: what the call must return follows from the captured values alone
+                    ctx.label("designed-expectation");
+                    let want = sess.obs(exp);
+                    if !same(&reference, &want) {
+                        fail!(
+                            format!("site:designed:{}/{}", status(&want), status(&reference)),
+                            "after\n{}\nthe call `{}` gives {:?}; with the captured values it must equal `{}` = {:?}",
+                            defs.join("\n"),
+                            call,
+                            reference,
+                            exp,
+                            want
+                        );
+                    }
+                }
                 if *captures {
                     ctx.nontrivial(hash_str(&format!("{:?}{}", defs, call)));
                 }
@@ -253,7 +272,8 @@ fn site_case(tape: &[u16], j1: MV, j2: MV) -> Case {
             sc.fns.push("m".into());
         }
     }
-    let form = t.pick(9);
+    let form = t.pick(14);
+    let mut expect: Option<String> = None;
     let mut body_scope = sc.clone();
     let mut call = "f(3)".to_string();
     let captures = true;
@@ -303,9 +323,40 @@ fn site_case(tape: &[u16], j1: MV, j2: MV) -> Case {
         7 => {
             defs.push("f = inputs => [inputs, k]".into());
         }
-        _ => {
+        8 => {
             // record shorthand and do-block rebinding of a captured name
             defs.push("f = x => do {\n  k = k + x\n  return {k, x}\n}".into());
+        }
+        9 => {
+            // a do-block that is not the last thing in the body rebinds a captured name; the name is read after it
+            body_scope.nums.push("x".into());
+            let b = body(&mut t, &body_scope);
+            defs.push(format!("f = x => [do {{\n  k = x * 2\n  return k\n}}, k, {}]", print_min(&b)));
+            expect = Some(format!("[6, k, (x => ({}))(3)]", print_min(&b)));
+        }
+        10 => {
+            defs.push("f = x => (if x > 0 then do {\n  k = x\n  return k\n} else 0) + k * 1000".into());
+            expect = Some("3 + k * 1000".into());
+        }
+        11 => {
+            // re-entered while on the stack, with a do-local named like a captured name in between
+            defs.push("f = n => do {\n  seen = k\n  k = n * 100\n  return if n == 0 then [seen] else [seen, ...f(n - 1)]\n}".into());
+            call = "f(2)".into();
+            expect = Some("[k, k, k]".into());
+        }
+        12 => {
+            // re-entered through a capture-free helper whose parameter is named like a captured name
+            defs.push("apply = (h, k) => h(0)".into());
+            defs.push("f = n => if n == 0 then k else apply(f, 99)".into());
+            call = "f(1)".into();
+            expect = Some("k".into());
+        }
+        _ => {
+            // re-entered through a callback of map, inside a function whose parameter shadows
+            defs.push("each = (k, h) => map([0], h)[0]".into());
+            defs.push("f = n => if n == 0 then k * 2 else each(n * 1000, f)".into());
+            call = "f(5)".into();
+            expect = Some("k * 2".into());
         }
     }
     Case::Site {
@@ -314,6 +365,7 @@ fn site_case(tape: &[u16], j1: MV, j2: MV) -> Case {
         junk1: j1,
         junk2: j2,
         captures,
+        expect,
     }
 }
 
